@@ -7,6 +7,7 @@ EXTENDS ConstExprGen, Json, CSV, IOUtils
 \* leaf alphabets (a cfg file cannot spell a negative number)
 LvAll   == {0, 1, -1, 2, 3, 7, 8, 31, 255, 256, 1073741824, 2147483647, -2147483647}
 LvQuick == {0, -1, 2, 7}
+LvTyped == {-1, -2, 2}
 LvThorough == {0, 1, -1, 2, 7, 31, 2147483647}
 
 DumpFile == IF "VERIF_DUMP" \in DOMAIN IOEnv THEN IOEnv.VERIF_DUMP ELSE ""
